@@ -33,7 +33,20 @@ fn main() {
             let code = match props::registry(&id) {
                 Some(e) => {
                     (e.run)(&mut r);
-                    r.finish(&evidence, &replays, e.rule, e.assumptions, serde_json::json!({}))
+                    let mut extra = serde_json::json!({});
+                    let xp = arg_after(&args, "--extra-json", "");
+                    if !xp.is_empty() {
+                        if let Ok(t) = std::fs::read_to_string(&xp) {
+                            if let Ok(v) = serde_json::from_str::<serde_json::Value>(&t) {
+                                // fold the companion run's coverage into this evidence file
+                                let c = &v["coverage"];
+                                r.transitions += c["transitions"].as_u64().unwrap_or(0);
+                                r.states += c["states"].as_u64().unwrap_or(0);
+                                extra = serde_json::json!({"companion_run": {"what": arg_after(&args, "--extra-what", "companion run"), "transitions": c["transitions"], "states": c["states"], "violating_inputs": c["violating_inputs"], "phases": c["phases"], "notes": c["notes"], "result_digest": c["result_digest"], "wall_s": v["wall_s"]}});
+                            }
+                        }
+                    }
+                    r.finish(&evidence, &replays, e.rule, e.assumptions, extra)
                 }
                 None => {
                     eprintln!("unknown property {}", id);
